@@ -83,6 +83,15 @@ def gen1d(rng, tier):
             tmax = [(F(t - i) - F(1, 2)) * eps * rng.choice([1, 2, 3]) for i in range(n)]      # ... 1.5 eps, 0.5 eps, -0.5 eps, -1.5 eps ...
             tmin = [v + F(1000) for v in tmax]
             cases.append(dict(kind="1d", fam="E", cnt=cnt, cap=None, cont=False, max_iter=15, tmin=tmin, tmax=tmax))
+    # E2 (directed, seed independent): every threshold position with the excess values next to the sign change a hair's breadth from zero
+    #    (+-0.5e-6, +-0.5e-7 K): a candidate that misses the limit by less than any tolerance in use is still infeasible
+    for n in (6, 11, 18) if tier == "quick" else (6, 11, 18, 30, 47):
+        cnt = inc_counts(rng, n, "nearsq")
+        for t in range(1, n):
+            for eps in (F(1, 1000000), F(1, 10000000)):
+                tmax = [(F(t - i) - F(1, 2)) * eps for i in range(n)]
+                tmin = [v + F(1000) for v in tmax]
+                cases.append(dict(kind="1d", fam="E2", cnt=cnt, cap=None, cont=False, max_iter=15, tmin=tmin, tmax=tmax))
     # D: long lists (bisection depth)
     for n in ([33, 64, 100] if tier == "quick" else [33, 64, 100, 257, 1000]):
         cnt = list(range(1, n + 1))
